@@ -21,8 +21,17 @@ def race_stress(tier, seed, workdir, root, repo, goenv, build_harness, sh, log, 
     t0 = time.time()
     for r in range(rounds):
         env = dict(goenv, GORACE="halt_on_error=0 exitcode=66")
-        p = subprocess.run([bins["race"], "-g", str(g), "-n", str(n), "-seed", str(seed + r)], stdout=subprocess.PIPE,
-                           stderr=subprocess.STDOUT, text=True, env=env, timeout=1800)
+        limit = 240 if tier == "quick" else 1500   # a clean run takes 10 s / 2 min: beyond this the run is stuck
+        try:
+            p = subprocess.run([bins["race"], "-g", str(g), "-n", str(n), "-seed", str(seed + r)], stdout=subprocess.PIPE,
+                               stderr=subprocess.STDOUT, text=True, env=env, timeout=limit)
+        except subprocess.TimeoutExpired as e:
+            out = e.stdout if isinstance(e.stdout, str) else (e.stdout or b"").decode("utf-8", "replace")
+            msg = ("race stress (g=%d n=%d seed=%d) did not finish within %d s: some goroutines wait for ever "
+                   "(a lock that is never released, a request that never returns); last output: %s" % (g, n, seed + r, limit, out[-600:]))
+            hits.append({"prop": "C09", "idx": r, "step": -1, "msg": msg, "component": None,
+                         "schedule": {"goroutines": g, "requests": n, "seed": seed + r}})
+            break
         races = len(re.findall(r"WARNING: DATA RACE", p.stdout))
         ms = re.search(r"race-stress: (\d+) scenarios", p.stdout)
         if ms:
